@@ -378,7 +378,7 @@ pub fn run(cfg: &Cfg) -> (Log, Meta) {
   log.merge(par_range(10001, 64, |i, l| year_and_month_stars(i as i64 - 1, l)));
   log.floor("day.jie_days_where_the_officer_repeats", cfg.tier.pick(5_000, 100_000));
   log.floor("day.leap_month_days", cfg.tier.pick(3_000, 90_000));
-  log.floor("day.nine_star_turning_days", cfg.tier.pick(1_000, 20_000));
+  log.floor("day.nine_star_turning_days", cfg.tier.pick(500, 10_000));
   log.floor("six.leap_month_days", cfg.tier.pick(3_000, 90_000));
   log.floor("hour.double_hours", cfg.tier.pick(40_000, 4_000_000));
   log.floor("hour.days_after_the_december_solstice", cfg.tier.pick(100, 10_000));
